@@ -68,7 +68,8 @@ func c14TierClass(tier string) string {
 	return tier
 }
 
-var c14InitList = []string{"a", "b"}
+// >= 4 members so that removing a non-last one shifts several survivors
+var c14InitList = []string{"a", "b", "c", "d"}
 
 // start builds a fresh world, runs the prologue and registers the worker threads.
 func (sc *c14Scenario) start(s *vk.Sched, fault *c14Fault) *c14World {
@@ -640,6 +641,28 @@ func (ev *c14Eval) lists() {
 		have := map[string]bool{}
 		for _, m := range h.List {
 			have[m] = true
+		}
+		// every member is unique by construction: a member listed twice is a list nobody
+		// ever wrote (neither the value before nor the value after any operation)
+		count := map[string]int{}
+		var dup []string
+		for _, m := range h.List {
+			count[m]++
+			if count[m] == 2 {
+				dup = append(dup, m)
+			}
+		}
+		if len(dup) > 0 {
+			sort.Strings(dup)
+			cause := "none"
+			for _, o := range ev.hist {
+				if o.Err != "" && (o.Kind == "remove" || o.Kind == "append") && o.Call < h.Call {
+					cause = "failed-" + o.Kind
+				}
+			}
+			ev.report(fmt.Sprintf("C14:listcorrupt|category=%s|effect=duplicate-member|after=%s", ev.cat(), cause),
+				"a list read returned a member twice: a value that is neither the list before nor the list after any operation (an operation that returned an error must leave the old or the new list)",
+				map[string]any{"read": h, "duplicated": dup})
 		}
 		var missing, undead, phantom []string
 		for m := range have {
